@@ -51,7 +51,7 @@ def scenario(kind, layout):
 def _run(kind, layout, faults, persistent):
     world, step, src = scenario(kind, layout)
     m = W.build_model(world)
-    m.max_ops = 2000
+    m.max_ops = 8000
     before = m.snap('/')
     hook = scen.FaultHook(faults, persistent) if faults else None
     _, r = scen.run_model(None, [step], hook=hook, model=m)
